@@ -153,6 +153,7 @@ package rapidcore
 
 // the release goroutine: exactly one report; an init/invoke DONE(fail) resets the environment before it is reported
 //@ func (*Server).Invoke$2
+//@   ensures [C01: the-deadline-is-taken-when-the-reservation-is-made] delta(ReserveTried) == 1 && delta(ReserveRefused) == 0 ==> delta(DispatchHelperStarted) == 1 && delta(MonotimeRead) >= 1 && first(MonotimeRead) < first(DispatchHelperStarted)
 //@   safety on
 //@   requires s != nil && invoke != nil
 //@   ensures [exactly-one-report] delta(ReleaseFailedSent) + delta(ReleaseSucceededSent) <= 1 && (delta(ReserveRefused) == 1 ==> delta(ReleaseFailedSent) == 1 && delta(ReleaseAwaited) == 0)
@@ -248,6 +249,11 @@ package rapidcore
 //@ event FastInvokeCall = call rapidcore.(*Server).FastInvoke
 //@ func (*Server).awaitInitialized
 //@   ensures [one-of-three-outcomes] r1 == nil || r1 == ErrInitResetReceived || r1 == ErrInitDoneFailed
+// C01 ("a deadline equal to arrival time plus the configured function timeout"): the deadline is taken when the reservation is
+// made, before the initialisation is awaited; the helper that dispatches the invocation afterwards leaves it alone
+//@ event MonotimeRead = call metering.Monotime
+//@ event DispatchHelperStarted = go rapidcore.(*Server).Invoke$2$1
 //@ func (*Server).Invoke$2$1
 //@   requires s != nil
+//@   ensures [C01: the-dispatching-helper-leaves-the-deadline-alone] unchanged(invoke.DeadlineNs)
 //@   ensures [a-failed-or-interrupted-init-is-torn-down-before-dispatch] delta(AwaitInitialized) == 1 && delta(FastInvokeCall) == 1 && delta(ServerShutdown) == delta(InitFailedSeen) && (delta(ServerShutdown) == 1 ==> first(ServerShutdown) < first(FastInvokeCall))
